@@ -125,6 +125,18 @@ struct Rt {
     ld: LRNonStreamingLexerDef<LT>,
     kind: String,
     rk: RecoveryKind,
+    /// %parse-param of the pair: "none" | "u64" | "generic" | "log", and the value passed
+    param: String,
+    pval: u64,
+    /// rules whose action type is the unit type (by rule index of the grammar)
+    unit: Vec<bool>,
+}
+
+/// What the run-time twin of the action template receives as parse parameter.
+#[derive(Clone)]
+struct RtParam {
+    pval: u64,
+    log: std::rc::Rc<std::cell::RefCell<Vec<String>>>,
 }
 
 fn build_rt(p: &Value, ysrc: &str, lsrc: &str) -> Result<Rt, String> {
@@ -132,6 +144,7 @@ fn build_rt(p: &Value, ysrc: &str, lsrc: &str) -> Result<Rt, String> {
     let yk = match kind.as_str() {
         "Grmtools" => YaccKind::Grmtools,
         "NoAction" => YaccKind::Original(YaccOriginalActionKind::NoAction),
+        "UserAction" => YaccKind::Original(YaccOriginalActionKind::UserAction),
         _ => YaccKind::Original(YaccOriginalActionKind::GenericParseTree),
     };
     let grm = YaccGrammar::<u32>::new_with_storaget(yk, ysrc).map_err(|e| format!("rt grammar: {e:?}"))?;
@@ -155,7 +168,20 @@ fn build_rt(p: &Value, ysrc: &str, lsrc: &str) -> Result<Rt, String> {
         (None, Some("None")) => RecoveryKind::None,
         _ => RecoveryKind::CPCTPlus,
     };
-    Ok(Rt { grm, st, ld, kind, rk })
+    let param = s["param"].as_str().unwrap_or("none").to_string();
+    let pval = 7 + p["id"].as_u64().unwrap() % 5;
+    // unit_rules is indexed by the source order of the user's rules; map through the rule names
+    let mut unit = vec![false; usize::from(grm.rules_len())];
+    if let (Some(u), Some(names)) = (s["unit_rules"].as_array(), p["rules"].as_array()) {
+        for (b, n) in u.iter().zip(names.iter()) {
+            if b.as_bool() == Some(true) {
+                if let Some(r) = grm.rule_idx(n.as_str().unwrap()) {
+                    unit[usize::from(r)] = true;
+                }
+            }
+        }
+    }
+    Ok(Rt { grm, st, ld, kind, rk, param, pval, unit })
 }
 
 fn rt_parse(rt: &Rt, input: &str) -> CtOut {
@@ -163,14 +189,20 @@ fn rt_parse(rt: &Rt, input: &str) -> CtOut {
     let lexed = show_lexemes(&lexer);
     let pb = RTParserBuilder::<u32, LT>::new(&rt.grm, &rt.st).recoverer(rt.rk);
     match rt.kind.as_str() {
-        "Grmtools" => {
+        "Grmtools" | "UserAction" => {
             // the action template of the generated grammars, evaluated natively
             let nprods = usize::from(rt.grm.prods_len());
-            type Act<'x> = Box<dyn Fn(RIdx<u32>, &dyn NonStreamingLexer<LT>, Span, std::vec::Drain<AStackType<DefaultLexeme<u32>, String>>, ()) -> String + 'x>;
+            type Act<'x> = Box<dyn Fn(RIdx<u32>, &dyn NonStreamingLexer<LT>, Span, std::vec::Drain<AStackType<DefaultLexeme<u32>, String>>, RtParam) -> String + 'x>;
             let mut boxed: Vec<Act> = vec![];
             for p in 0..nprods {
-                boxed.push(Box::new(move |_ridx, lexer, span, args, _| {
+                let mode = rt.param.clone();
+                let unit_rule = rt.unit[usize::from(rt.grm.prod_to_rule(cfgrammar::PIdx(p as u32)))];
+                boxed.push(Box::new(move |_ridx, lexer, span, args, prm: RtParam| {
                     let mut s = format!("p{p}[{}..{} $ ", span.start(), span.end());
+                    match mode.as_str() {
+                        "u64" | "generic" => s.push_str(&format!("P{} ", prm.pval)),
+                        _ => {}
+                    }
                     for a in args {
                         match a {
                             AStackType::ActionType(v) => {
@@ -187,11 +219,20 @@ fn rt_parse(rt: &Rt, input: &str) -> CtOut {
                         }
                     }
                     s.push(']');
-                    s
+                    if mode == "log" {
+                        prm.log.borrow_mut().push(s.clone());
+                    }
+                    if unit_rule { "()".to_string() } else { s }
                 }));
             }
-            let refs: Vec<&dyn Fn(RIdx<u32>, &dyn NonStreamingLexer<LT>, Span, std::vec::Drain<AStackType<DefaultLexeme<u32>, String>>, ()) -> String> = boxed.iter().map(|b| &**b).collect();
-            let (v, e) = pb.parse_actions(&lexer, &refs, ());
+            let refs: Vec<&dyn Fn(RIdx<u32>, &dyn NonStreamingLexer<LT>, Span, std::vec::Drain<AStackType<DefaultLexeme<u32>, String>>, RtParam) -> String> = boxed.iter().map(|b| &**b).collect();
+            let log = std::rc::Rc::new(std::cell::RefCell::new(Vec::<String>::new()));
+            let (v, e) = pb.parse_actions(&lexer, &refs, RtParam { pval: rt.pval, log: log.clone() });
+            let v = if rt.param == "log" {
+                v.map(|v| format!("{v} LOG[{}]", log.borrow().join(";"))).or_else(|| Some(format!("<none> LOG[{}]", log.borrow().join(";"))))
+            } else {
+                v
+            };
             CtOut { lexed, value: v, errors: conv_errors(e) }
         }
         "NoAction" => {
@@ -243,6 +284,12 @@ fn main() {
         };
         pairs_run += 1;
         bump(&format!("kind:{}", rt.kind), &mut classes);
+        if rt.kind == "Grmtools" || rt.kind == "UserAction" {
+            bump(&format!("parse-param:{}", rt.param), &mut classes);
+            if rt.unit.iter().any(|b| *b) {
+                bump("unit-typed-rules", &mut classes);
+            }
+        }
         let inputs: Vec<String> = p["inputs"].as_array().unwrap().iter().map(|x| x.as_str().unwrap().to_string()).collect();
         // first use from several threads at once (C15, last clause): all must equal the sequential result
         if let Some(inp0) = inputs.first() {
